@@ -134,10 +134,18 @@ def execute_fit_belongs_to_cluster(case, t):
             S = np.atleast_2d(stats[k]["empirical_covariance"])
             own = admm.admm_optimize_theta(S, lam, case["W"], case["N"], **kw)
             if not _fit_is_own(after[k]["train_inverse"], own.theta, 0):
+                # not the bits of a fresh solve.  A solver that starts from another point may legitimately end elsewhere within
+                # its stopping tolerance, so only a clear miss counts: far from the own answer, or exactly another cluster's.
+                from fast_ticc import matrix_compression
+                own_full = matrix_compression.reinflate_matrix(np.array(own.theta, copy=True))
+                stored = np.asarray(after[k]["train_inverse"])
+                rel = float(np.max(np.abs(stored - own_full)) / max(float(np.max(np.abs(own_full))), 1e-300)) if stored.shape == own_full.shape else float("inf")
                 whose = [j for j in range(case["K"]) if j != k and
                          _fit_is_own(after[k]["train_inverse"], admm.admm_optimize_theta(np.atleast_2d(stats[j]["empirical_covariance"]), lam, case["W"], case["N"], **kw).theta, 0)]
-                raise Violation(f"round {r}, {workers} workers: the matrix stored for cluster {k} is not the optimiser's answer to cluster {k}'s "
-                                f"covariance" + (f"; it is the answer to cluster {whose[0]}'s" if whose else ""))
+                if whose or rel > 1e-3:
+                    raise Violation(f"round {r}, {workers} workers: the matrix stored for cluster {k} is not the optimiser's answer to cluster {k}'s "
+                                    f"covariance (relative difference {rel:.3g})" + (f"; it is the answer to cluster {whose[0]}'s" if whose else ""))
+                t.cls("stored_fit_differs_from_a_fresh_solve_within_tolerance")
         sz = [len(c["members"]) for c in stats]
         if len(set(sz)) == len(sz) and sorted(range(len(sz)), key=lambda i: sz[i]) != list(range(len(sz))):
             sizes_differ = True
